@@ -112,12 +112,12 @@ Definition read_srt_c (data : str) : res (list sitem) := read_srt_lines_c (lines
 Definition run_bytes_c (r : srun) : res str :=
   let has := is_some (sr_sty r) in
   do color <- (if has then
-                 do a <- deref (sr_sty r) 289;
-                 if is_some (sa_col a) then deref (sa_col a) 290 else Ok []
+                 do a <- deref (sr_sty r) 286;
+                 if is_some (sa_col a) then deref (sa_col a) 287 else Ok []
                else Ok []);
-  do b <- (if has then do a <- deref (sr_sty r) 294; Ok (sa_b a) else Ok false);
-  do i <- (if has then do a <- deref (sr_sty r) 295; Ok (sa_i a) else Ok false);
-  do u <- (if has then do a <- deref (sr_sty r) 296; Ok (sa_u a) else Ok false);
+  do b <- (if has then do a <- deref (sr_sty r) 291; Ok (sa_b a) else Ok false);
+  do i <- (if has then do a <- deref (sr_sty r) 292; Ok (sa_i a) else Ok false);
+  do u <- (if has then do a <- deref (sr_sty r) 293; Ok (sa_u a) else Ok false);
   Ok ((match color with [] => [] | _ => s_font_open ++ color ++ [34; 62] end) ++
       (if b then tag_open 98 else []) ++ (if i then tag_open 105 else []) ++ (if u then tag_open 117 else []) ++
       (if sr_pos r =? 0 then [] else [123;92;97;110] ++ itoa (sr_pos r) ++ [125]) ++
